@@ -7,7 +7,7 @@
 From Coq Require Import List ZArith Lia Bool.
 From Lungo.Model Require Import Driver.
 From Lungo.Spec Require Import SpecDb.
-From Lungo.Proofs Require Import CollLists CollInv.
+From Lungo.Proofs Require Import CompareOrder CollLists CollInv.
 Import ListNotations.
 Open Scope Z_scope.
 
@@ -403,3 +403,91 @@ Proof.
   - destruct newl as [|n ns]; [discriminate|]. simpl in H. injection H as H.
     simpl. rewrite IH; auto.
 Qed.
+
+(* ------------------------------------------------------------------ *)
+(* structural equality is equality; replacing a document by itself *)
+
+Lemma value_eqb_eq : forall a b, value_eqb a b = true -> a = b.
+Proof.
+  apply (value_ind' (fun a => forall b, value_eqb a b = true -> a = b)).
+  intros a Hsub b H.
+  destruct a, b; simpl in H; try discriminate; try reflexivity;
+    repeat match goal with
+           | H : _ && _ = true |- _ => apply andb_true_iff in H; destruct H
+           end;
+    repeat match goal with
+           | H : (_ =? _) = true |- _ => apply Z.eqb_eq in H
+           | H : String.eqb _ _ = true |- _ => apply String.eqb_eq in H
+           | H : Bool.eqb _ _ = true |- _ => apply Bool.eqb_prop in H
+           end; subst; try reflexivity.
+  - (* documents *)
+    f_equal. simpl in Hsub. revert d0 H.
+    induction Hsub as [|[k v] d Hv Hd IH]; intros [|[k' v'] e] H; try discriminate; auto.
+    apply andb_true_iff in H. destruct H as [H1 H3].
+    apply andb_true_iff in H1. destruct H1 as [H1 H2].
+    apply String.eqb_eq in H1. apply Hv in H2. subst. f_equal. apply IH. exact H3.
+  - (* arrays *)
+    f_equal. simpl in Hsub. revert a0 H.
+    induction Hsub as [|v a Hv Ha IH]; intros [|v' e] H; try discriminate; auto.
+    apply andb_true_iff in H. destruct H as [H1 H2].
+    apply Hv in H1. subst. f_equal. apply IH. exact H2.
+Qed.
+
+Lemma number_fst_ge {A} (l : list A) n i d : In (i, d) (number l n) -> n <= i.
+Proof.
+  revert n. induction l as [|x t IH]; intros n H; [contradiction|].
+  cbn [number] in H. destruct H as [H|H].
+  - inversion H. lia.
+  - apply IH in H. lia.
+Qed.
+
+Lemma number_in_replace_at {A} (l : list A) n i d :
+  In (i, d) (number l n) -> replace_at l (i - n) d = l.
+Proof.
+  revert n. induction l as [|x t IH]; intros n H; [contradiction|].
+  cbn [number] in H. cbn [replace_at]. destruct H as [H|H].
+  - inversion H; subst. replace (i - i) with 0 by lia. reflexivity.
+  - pose proof (number_fst_ge _ _ _ _ H) as Hge.
+    destruct (Z.eqb_spec (i - n) 0) as [E|E]; [lia|].
+    f_equal. replace (i - n - 1) with (i - (n + 1)) by lia. apply IH. exact H.
+Qed.
+
+Lemma replace_all_at_same docs (newl : list (Z * doc)) :
+  (forall p, In p newl -> In p (number docs 0)) -> replace_all_at docs newl = docs.
+Proof.
+  induction newl as [|[i d] t IH]; intro H; [reflexivity|].
+  cbn [replace_all_at].
+  pose proof (number_in_replace_at docs 0 i d (H _ (or_introl eq_refl))) as Hr.
+  rewrite Z.sub_0_r in Hr. rewrite Hr. apply IH. intros p Hp. apply H. right. exact Hp.
+Qed.
+
+Lemma s_modified_nil (matched newl : list (Z * doc)) :
+  map fst newl = map fst matched -> s_modified matched newl = [] -> newl = matched.
+Proof.
+  revert newl. induction matched as [|[i o] ms IH]; intros [|[j n] ns] Hf H; try discriminate; auto.
+  cbn [map fst] in Hf. injection Hf as Hj Hf. subst j. cbn [s_modified] in H.
+  destruct (value_eqb (VDoc o) (VDoc n)) eqn:E; [|discriminate].
+  apply value_eqb_eq in E. inversion E; subst. f_equal. apply IH; auto.
+Qed.
+
+Lemma without_nil docs : without docs [] = docs.
+Proof.
+  unfold without. cbn [existsb negb].
+  assert (H : forall (l : list (Z * doc)), filter (fun _ => true) l = l)
+    by (induction l as [|x t IH]; simpl; [|rewrite IH]; reflexivity).
+  rewrite H. apply number_snd.
+Qed.
+
+Section ApplyTags.
+  Variable applyf : doc -> doc -> doc -> bool -> list doc -> Z -> res (doc * list (string * value)).
+
+  Lemma s_apply_all_tags now l q u afs newl :
+    s_apply_all applyf now l q u afs = Ok newl -> map fst newl = map fst l.
+  Proof.
+    revert newl. induction l as [|[i d] t IH]; intros newl H; cbn [s_apply_all] in H.
+    - inversion H. reflexivity.
+    - destruct (applyf d q u false afs now) as [r| | | |]; cbn [bind] in H; try discriminate.
+      destruct (s_apply_all applyf now t q u afs) as [rest| | | |]; cbn [bind] in H; try discriminate.
+      inversion H; subst. cbn [map fst]. f_equal. apply IH. reflexivity.
+  Qed.
+End ApplyTags.
